@@ -44,7 +44,25 @@ MANIFEST = dict(
           "list). Every fitted learner of every criterion is also asked to predict and split the empty list, single samples, random "
           "strict subsets and lists that leave a group / branch empty (clause ext-sublist: rows bit-identical to the prediction on the "
           "fit list, groups identical, non-members unassigned; SUB lines replayed by the extracted group / tree_bfs); a crash prints "
-          "the operation (learner + sample list) from a signal handler and becomes a crash replay."),
+          "the operation (learner + sample list) from a signal handler and becomes a crash replay. "
+          "EXTENSION 3 (C10_TreeFit_Defs / C10_TreeFit, driver stage `treefit`): the greedy FIT of dtree_wlearner_t::do_fit is inside the "
+          "model -- the work queue of (sample list, depth, parent entry), the stump (same criterion, argmin = feature, mid-point threshold, "
+          "two tables; its score IS the proved-optimal stump_fit) fitted on the front list, the translated terminal test (list size vs "
+          "min(10, ROWS * min_split / 100), depth), the link written into the parent's entry, leaf entries + tables, split entries with the "
+          "children queued on cluster.indices(side) (increasing row indices WITHOUT repetitions), no_fit_score of ANY queued list failing "
+          "the whole fit, score = sum of the terminal stump scores. Theorems for every dataset / list / residuals / parameters: "
+          "C10_treefit_wf (every fitted node table satisfies tree_wf, so C10_tree_walk / C10_tree_bfs_is_walk apply without a checker), "
+          "C10_treefit_greedy + C10_treefit_stump_optimal (every pair carries the optimal stump of the list recorded for it, children get "
+          "exactly the samples of their side, every pair but the root has a parent entry, every recorded sample reaches its pair by the "
+          "walk, leaf tables = mean residuals), C10_treefit_root (the root of any fitted tree is the stump fit of the whole list; terminal "
+          "root = the stump), C10_treefit_score (score = sum over terminal pairs of the clamped RSS of the tree's own predictions on the "
+          "recorded samples) with C10_treefit_score_omits_dropped_refuted (samples dropped at a split pair are not scored: predictions do "
+          "not reproduce the score of a deeper tree), C10_treefit_terminates (fuel 2^max_depth suffices, at most 2^(max_depth+1) - 2 "
+          "entries), C10_treefit_nofit, C10_treefit_kernels. Tie: the harness dumps the whole dataset and every real fit behind a "
+          "one-thread pool (TFIT lines, also for no_fit_score); the extracted tree_fit must return the same node table (features, exact "
+          "mid-point thresholds, links, table indices), leaf tables within 1e-9 of the summed residual magnitudes, no fit exactly when the "
+          "library has none, and the score; a disagreement is excused only when a stump of the model's trace has a second candidate "
+          "within 1e-12 (counted). Direct oracle ext-tree-fit (every pair re-fitted by the real stump learner) is kept."),
     note=("Coq kernel; translator (9 + 16 kernels of wlearner/util.cpp, table.cpp, dtree.cpp, stump.cpp, hinge.cpp, affine.cpp, "
           "core/stats.h, dataset/iterator.cpp; the AIC/AICc/BIC expressions are translated structurally with the logarithms as named "
           "inputs and read over the reals); the criterion theorems use the standard real-number axioms; the driver evaluates the "
@@ -53,7 +71,10 @@ MANIFEST = dict(
           "with ExtrOcamlZBigInt (Zarith); harness against the library built from the working tree + OCaml driver; optimality is "
           "over exact arithmetic (the running-moment formula r2 - r1^2/x0 loses digits by cancellation: 1e-9 relative tolerance); "
           "dstep fits on a categorical feature without any selected value are excluded (out-of-bounds read in score_kbest, "
-          "probed separately and reported in the evidence)."),
+          "probed separately and reported in the evidence). Extension 3: 5 more kernels of dtree.cpp (30 in total); the trace of the "
+          "model (sample list per pair) is ghost output the library does not expose; the converse of the reach clause (every sample whose "
+          "walk visits a pair is recorded there) is searched by the driver, not proved; AICc nodes with n = k + 1 (infinite criterion) are "
+          "modelled by the admissibility predicate the driver passes in; ties within 1e-12 are skipped (treefit_ties)."),
     technique="Coq proof over Q of a translated+extracted model, differential correspondence within rounding tolerance, "
               "independent brute-force and consistency oracles on the implementation",
     design="DESIGN.md section 2, C10")
@@ -63,9 +84,10 @@ VARIANTS = ["rel"]
 CHUNKS = {"quick": (2, 1500), "thorough": (40, 2500)}   # (chunks, cases per chunk); the chunk id perturbs the seed
 COUNTERS = ("cases", "fits", "nofits", "obs", "optimal_checks", "reproduce_checks", "consistency_checks", "dstep_excluded",
             "scale_checks", "merges", "merged_pairs", "depth1_checks", "thread_checks", "missing_samples", "tie_columns",
-            "ext_topk", "ext_crit", "ext_ksplit", "ext_tree", "ext_treefit", "ext_topk_partial", "ext_sublist", "ext_sublist_lists")
+            "ext_topk", "ext_crit", "ext_ksplit", "ext_tree", "ext_treefit", "ext_topk_partial", "ext_sublist", "ext_sublist_lists",
+            "ext_tfit", "ext_tfit_nofit", "ext_tfit_deep")
 HISTS = ("learners", "kinds", "subsets", "nhist", "obs_kinds")
-MODEL_LINES = ("CONST ", "CASE ", "F ", "G ", "FIT ", "PRED ", "SPLIT ", "SCALE ", "MERGE ", "SUB ")
+MODEL_LINES = ("CONST ", "CASE ", "F ", "G ", "FIT ", "PRED ", "SPLIT ", "SCALE ", "MERGE ", "SUB ", "TD ", "TF ", "TG ", "TS ", "TFIT ")
 
 
 def _ensure_numeric():
@@ -137,7 +159,7 @@ def _hist(s):
 
 def _case_lines(lines, cid):
     """the lines of one case (for a replay file): CASE/F/G and everything that carries the id"""
-    return [l for l in lines if re.match(r"^(CASE|F|G|FIT|PRED|SPLIT|SCALE|MERGE|SUB|CRASH-CONTEXT|FAIL \S+|OBS \S+) %s( |$)" % re.escape(cid), l)]
+    return [l for l in lines if re.match(r"^(CASE|F|G|FIT|PRED|SPLIT|SCALE|MERGE|SUB|TD|TF|TG|TS|TFIT|CRASH-CONTEXT|FAIL \S+|OBS \S+) %s( |$)" % re.escape(cid), l)]
 
 
 def _run_chunk(exe, drv, seed, tier, ncases, ch, only=None):
@@ -205,12 +227,12 @@ def run(tier, replay=None):
         done = [l for l in lines if l.startswith("DONE ")]
         for l in lines:
             op = l.split(" ", 1)[0]
-            if op in ("FIT", "PRED", "SPLIT", "SCALE", "MERGE", "FAIL", "OBS"):
+            if op in ("FIT", "PRED", "SPLIT", "SCALE", "MERGE", "FAIL", "OBS", "TFIT"):
                 ops[op] += 1
         fl = [l for l in lines if l.startswith("FAIL ")]
         impl_fail += [(ch, l) for l in fl]
         obs += [(ch, l) for l in lines if l.startswith("OBS ")]
-        evaluations += sum(1 for l in lines if l.startswith(("FIT ", "PRED ", "SPLIT ", "SCALE ", "MERGE ")))
+        evaluations += sum(1 for l in lines if l.startswith(("FIT ", "PRED ", "SPLIT ", "SCALE ", "MERGE ", "TFIT ")))
         if rc != 0 or not done:
             last_case = [l for l in lines if l.startswith("CASE ")][-1:]
             cid = last_case[0].split()[1] if last_case else "?"
@@ -240,7 +262,7 @@ def run(tier, replay=None):
         for l in mout.split("\n"):
             if l.startswith(("MISMATCH", "PROPFAIL")):
                 cm.append(l)
-            elif l.startswith("EXT-DONE"):
+            elif l.startswith(("EXT-DONE", "TREEFIT-DONE")):
                 for k, v in _kv(l).items():
                     ext_model[k] += int(v)
             elif l.startswith("MODEL-DONE"):
@@ -305,7 +327,7 @@ def run(tier, replay=None):
                     fingerprint="C10-dstep-empty-feature-out-of-bounds")
     vlib.handle_coq_failure(r, cres)
     vlib.proof_coverage(r, cres, "make -C coq theories/Properties_C10.vo && coqc theories/Properties_C10.v (Print Assumptions)",
-                        ["tools/translate.py (25 kernels of src/wlearner/{util,table,dtree,stump,hinge,affine}.cpp, include/nano/core/stats.h, "
+                        ["tools/translate.py (30 kernels of src/wlearner/{util,table,dtree,stump,hinge,affine}.cpp, include/nano/core/stats.h, "
                          "src/dataset/iterator.cpp; AIC/AICc/BIC structurally, logarithms as named inputs)",
                          "extension: the criteria are evaluated by the driver in OCaml floats from the exact RSS (interval of width 1e-9 * sum r^2); "
                          "the real-valued model crit_score is tied to the translated expressions by the shape lemmas only",
@@ -341,7 +363,13 @@ def run(tier, replay=None):
                               "vs the criterion of the model's exact RSS candidates; ties_skipped / crit_skipped = comparisons left out because "
                               "a merge step (or a delta order) of the model is a (near-)tie. harness: ext_topk (all subsets), ext_crit, ext_ksplit, "
                               "ext_tree (structure + own traversal on all samples), ext_treefit (every pair = stump of its samples), "
-                              "ext_sublist / ext_sublist_lists (learners / sample lists of the sub-list clause; driver counter sub)")
+                              "ext_sublist / ext_sublist_lists (learners / sample lists of the sub-list clause; driver counter sub). "
+                              "treefit stage (extension 3): treefit = TFIT lines replayed by the extracted tree_fit, treefit_same_table = fits whose "
+                              "node table / leaf tables / score agree (treefit_deep of them with more than one pair), treefit_nofit = both sides "
+                              "return no fit, treefit_ties = disagreements excused by a (near-)tie in the model's trace, treefit_reach = fits on "
+                              "which the converse reach clause was searched, treefit_score_not_rss = fitted trees whose score is not the RSS of "
+                              "their predictions on the fit list (observation F7 / C10_treefit_score_omits_dropped_refuted); harness: ext_tfit "
+                              "(lines), ext_tfit_nofit, ext_tfit_deep")
     cov["mismatches"] = len(mism)
     cov["impl_direct_failures"] = len(impl_fail)
     cov["samples"] = samples
@@ -358,9 +386,10 @@ def run(tier, replay=None):
         "1e-9 * sum r^2; hinge is left out (its criterion uses the sample count of the hinge side, observation hinge-criterion-n)",
         "k-split: the moments of a cluster are the sums over its label sets and the stored tables reproduce the trial's RSS (tied by the "
         "correspondence and the group-mean oracle, not proved); std::lower_bound on the sorted hashes finds every stored label set",
-        "decision trees: the greedy fit (every pair is the stump of the samples reaching it, terminal test, score = sum over the "
-        "leaves) is searched; tree_wf of the fitted node tables is checked on every fit, not proved of do_fit (the breadth-first split "
-        "= per-sample walk is now a theorem, C10_tree_bfs_is_walk)",
+        "decision trees: the greedy fit is now inside the model (C10_treefit_*); still searched: the floating-point choice among "
+        "candidates within 1e-12 (ties skipped), the converse of the reach clause (every sample of the fit list whose walk visits a pair "
+        "is in the list the pair was fitted on: driver clause ext-treefit-reach), AIC / AICc / BIC tree scores within the criterion "
+        "interval, fits behind a pool of several workers (tie order depends on the schedule, finding F4)",
         "predict / split on arbitrary sub-lists (empty, single samples, strict subsets, lists leaving a branch empty) = the rows / "
         "groups of the fit list, bit-exact, implementation-side for every learner (model side: per sample by construction)",
         "predictions depend only on the sample (other sample lists, repetitions), bit-exact, implementation-side",
